@@ -213,7 +213,7 @@ func (val Value) Equals(other Value) Value {
 	if !val.HasWhollyKnownType() || !other.HasWhollyKnownType() {
 		// Even if we have dynamic values, we can still determine inequality if
 		// there is no way the types could later conform.
-		if val.ty.TestConformance(other.ty) != nil && other.ty.TestConformance(val.ty) != nil {
+		if !typesMayBecomeEqual(val.ty, other.ty) {
 			return BoolVal(false)
 		}
 
@@ -399,6 +399,42 @@ func (val Value) Equals(other Value) Value {
 	}
 
 	return BoolVal(result)
+}
+
+// typesMayBecomeEqual returns false only if no replacement of the
+// DynamicPseudoType placeholders in either type could make the two types equal.
+func typesMayBecomeEqual(a, b Type) bool {
+	switch {
+	case a == DynamicPseudoType || b == DynamicPseudoType:
+		return true
+	case a.IsListType() && b.IsListType(), a.IsSetType() && b.IsSetType(), a.IsMapType() && b.IsMapType():
+		return typesMayBecomeEqual(a.ElementType(), b.ElementType())
+	case a.IsTupleType() && b.IsTupleType():
+		aetys, betys := a.TupleElementTypes(), b.TupleElementTypes()
+		if len(aetys) != len(betys) {
+			return false
+		}
+		for i := range aetys {
+			if !typesMayBecomeEqual(aetys[i], betys[i]) {
+				return false
+			}
+		}
+		return true
+	case a.IsObjectType() && b.IsObjectType():
+		aatys, batys := a.AttributeTypes(), b.AttributeTypes()
+		if len(aatys) != len(batys) {
+			return false
+		}
+		for name, aty := range aatys {
+			bty, ok := batys[name]
+			if !ok || !typesMayBecomeEqual(aty, bty) {
+				return false
+			}
+		}
+		return true
+	default:
+		return a.Equals(b)
+	}
 }
 
 // NotEqual is a shorthand for Equals followed by Not.
